@@ -11,12 +11,16 @@
 //   k <flags> <hex block>   parse, pack with packInto, parse the packed bytes again (same flags)
 //        -> reject | <p-output of first parse> || pack=<hex> || <p-output of the second parse>
 //        -> throw      (a Must() threw inside parse)
+//   m <flags> <hex bytes>   the HTTP/1 parser path: Http::One::Parser::grabMimeBlock (headersEnd, cleanMimePrefix, unfoldMime) on the
+//        bytes that follow a request line, then HttpHeader::parse on mimeHeader() as Http::Message::parseHeader does
+//        -> incomplete | mime=<hex> <p-output>
 //   l <hex name>            -> HeaderLookupTable.lookup(name,len).id
 //   --dump-registry         -> one line per HdrType: id name list request reply hopbyhop denied304 type
 #include "squid.h"
 #include "HttpHeader.h"
 #include "http/ContentLengthInterpreter.h"
 #include "http/RegisteredHeaders.h"
+#include "http/one/RequestParser.h"
 #include "MemBuf.h"
 #include "MemObject.h"
 #include "SquidConfig.h"
@@ -90,6 +94,15 @@ static bool runParse(HttpHeader &hdr, const Flags &fl, const std::string &block)
     return ok != 0;
 }
 
+/// exposes the protected mime block grabbing of the HTTP/1 parsers
+struct Grabber : public Http::One::RequestParser {
+    bool grab(const SBuf &b) {
+        buf_ = b;
+        msgProtocol_ = AnyP::ProtocolVersion(AnyP::PROTO_HTTP, 1, 1);
+        return grabMimeBlock("Request", 1 << 24);
+    }
+};
+
 static std::string describe(const HttpHeader &hdr) {
     std::string out = "ok cl=";
     if (hdr.has(Http::HdrType::CONTENT_LENGTH))
@@ -152,6 +165,17 @@ int main(int argc, char **argv) {
                 HttpHeader again(fl.owner);
                 const bool ok2 = runParse(again, fl, packed);
                 out = describe(hdr) + " || pack=" + hex(packed.data(), packed.size()) + " || " + (ok2 ? describe(again) : "reject");
+            }
+        } else if (tok[0] == "m" && nt == 3 && parseFlags(tok[1], fl) && unhex(tok[2], bytes)) {
+            Config.onoff.relaxed_header_parser = fl.relaxed ? 1 : 0;
+            Grabber g;
+            if (!g.grab(SBuf(bytes.data(), bytes.size()))) {
+                out = "incomplete";
+            } else {
+                const SBuf mime = g.mimeHeader();
+                const std::string block(mime.rawContent(), mime.length());
+                HttpHeader hdr(fl.owner);
+                out = "mime=" + hex(block.data(), block.size()) + " " + (runParse(hdr, fl, block) ? describe(hdr) : "reject");
             }
         } else if (tok[0] == "l" && nt == 2 && unhex(tok[1], bytes)) {
             char *buf = new char[bytes.size()];
